@@ -240,9 +240,11 @@ impl Assembler for PointAssembler {
             ; ja >L
             ; jb >R
 
-            // Fallthrough for equal, so just copy to the output register
+            // Fallthrough for equal: copy the right-hand side to the output
+            // register, like every other evaluator (this matters for zeros
+            // of opposite sign)
             ; or [rsi], CHOICE_BOTH as i8
-            ; vmovss Rx(reg(out_reg)), Rx(reg(out_reg)), Rx(reg(lhs_reg))
+            ; vmovss Rx(reg(out_reg)), Rx(reg(out_reg)), Rx(reg(rhs_reg))
             ; jmp >O
 
             // Fallthrough for NaN, which are !=; do a float addition to
@@ -277,9 +279,11 @@ impl Assembler for PointAssembler {
             ; ja >R
             ; jb >L
 
-            // Fallthrough for equal, so just copy to the output register
+            // Fallthrough for equal: copy the right-hand side to the output
+            // register, like every other evaluator (this matters for zeros
+            // of opposite sign)
             ; or [rsi], CHOICE_BOTH as i8
-            ; vmovss Rx(reg(out_reg)), Rx(reg(out_reg)), Rx(reg(lhs_reg))
+            ; vmovss Rx(reg(out_reg)), Rx(reg(out_reg)), Rx(reg(rhs_reg))
             ; jmp >O
 
             ; N:
